@@ -4,6 +4,7 @@
 // assumptions about libc: each call may succeed or fail, nondeterministically).
 #ifndef VERIF_FS_H
 #define VERIF_FS_H
+struct utimbuf { long actime; long modtime; };
 #include "base.h"
 #include "containers.h"
 #include "sink.h"
@@ -56,5 +57,4 @@ struct string
 };
 }
 using std::string;
-struct utimbuf { long actime; long modtime; };
 #endif
